@@ -127,6 +127,12 @@ impl Catalog {
         }
     }
 
+    /// (meta table root, meta index root)
+    #[cfg(feature = "verif")]
+    pub(crate) fn verif_roots(&self) -> (PageId, PageId) {
+        (self.meta_table, self.meta_index)
+    }
+
     /// Converts a relation into a meta table tuple for storage.
     pub(crate) fn relation_as_meta_table_tuple(
         relation: &Relation,
